@@ -323,15 +323,18 @@ package smf
 //@ ensures [P:C11] (len(t) == 0 || t[0].AbsTicks > absTicks) ==> bpm == 120.0
 //@ ensures [P:C11] forall k int :: tcLast(t, k, absTicks) ==> bpm == t[k].BPM
 
-// bookkeeping of the cumulative times: the running tick and time are those of the entry just processed, and an
-// entry at the tick of the previous entry gets the previous entry's time. (The time of an entry at a later tick -
-// time of the change in force before it plus the duration of the ticks in between at that change's tempo - is the
-// same kind of clause as TimeAt's and does not discharge here within the limit: not claimed.)
-// The stretch before the first tempo change runs at 120 BPM: the first entry of the tempo map, when it is not at
-// tick 0, gets the duration of its ticks at 120 BPM (in whole microseconds). The second entry, when it is later than
-// the first, gets the first entry's time plus the duration of the ticks in between at the FIRST entry's tempo.
+// Cumulative times of the tempo map (C11), as loop invariants about the entry just processed (index k):
+//  - the running tick and time are those of entry k; an entry at the tick of its predecessor gets the predecessor's time;
+//  - the first entry, when it is not at tick 0, gets the duration of its ticks at 120 BPM (the stretch before the
+//    first tempo change), in whole microseconds;
+//  - in a map whose entries up to k-1 are at ticks before entry k (tcLast: entry k-1 is the change in force just
+//    before entry k - true of every k in a map sorted by tick), entry k gets the time of entry k-1 plus the duration
+//    of the ticks in between at the tempo of entry k-1 (NOT the tempo of entry k), in whole microseconds.
+// Not stated: the closed form 'time of entry k = sum over all earlier segments' (a fold; it follows by induction
+// from the third clause outside the machinery) and maps that are not sorted.
 //@ macro usIs(us, ns) = real(int(us)) * 1000.0 <= ns && ns < real(int(us)) * 1000.0 + 1000.0
 //@ macro tfQ(s) = (uint16(bval(s.TimeFormat)) == 0 ? 960 : uint16(bval(s.TimeFormat)))
+//@ macro tcPrevDur(s, k) = durOf(tfQ(s), s.tempoChanges[k-1].BPM, uint32(s.tempoChanges[k].AbsTicks - s.tempoChanges[k-1].AbsTicks))
 //@ func (*SMF).calculateAbsTimes
 //@ requires tcsOK(s.tempoChanges)
 //@ modifies any(TempoChange).AbsTimeMicroSec
@@ -339,6 +342,7 @@ package smf
 //@ loop 0 invariant (rangeindex == -1 ==> (lasttcTick == 0 && lasttcTimeMicroSec == 0)) && (rangeindex >= 0 ==> (lasttcTick == s.tempoChanges[rangeindex].AbsTicks && lasttcTimeMicroSec == s.tempoChanges[rangeindex].AbsTimeMicroSec))
 //@ loop 0 invariant [P:C11] (rangeindex >= 1 && s.tempoChanges[rangeindex].AbsTicks == s.tempoChanges[rangeindex-1].AbsTicks) ==> s.tempoChanges[rangeindex].AbsTimeMicroSec == s.tempoChanges[rangeindex-1].AbsTimeMicroSec
 //@ loop 0 invariant [P:C11] (rangeindex == 0 && typeof(s.TimeFormat) == typeid(MetricTicks) && s.tempoChanges[0].AbsTicks > 0 && s.tempoChanges[0].AbsTicks < 4294967296 && durOf(tfQ(s), 120.0, uint32(s.tempoChanges[0].AbsTicks)) >= 0.0 && durOf(tfQ(s), 120.0, uint32(s.tempoChanges[0].AbsTicks)) < 9223372036854775808.0) ==> usIs(s.tempoChanges[0].AbsTimeMicroSec, durOf(tfQ(s), 120.0, uint32(s.tempoChanges[0].AbsTicks)))
+//@ loop 0 invariant [P:C11] (rangeindex >= 1 && typeof(s.TimeFormat) == typeid(MetricTicks) && tcLast(s.tempoChanges, rangeindex - 1, s.tempoChanges[rangeindex].AbsTicks - 1) && s.tempoChanges[rangeindex-1].AbsTicks >= 0 && s.tempoChanges[rangeindex].AbsTicks < 4294967296 && tcPrevDur(s, rangeindex) >= 0.0 && tcPrevDur(s, rangeindex) < 9223372036854775808.0) ==> usIs(s.tempoChanges[rangeindex].AbsTimeMicroSec - s.tempoChanges[rangeindex-1].AbsTimeMicroSec, tcPrevDur(s, rangeindex))
 //@ loop 0 decreases len(s.tempoChanges) - rangeindex
 
 //@ func (*SMF).finishTempoChanges
